@@ -34,7 +34,8 @@ EXPLANATION = (
     "self._fill_request.request() with self._after.  "
     "FillRequest.fill increments its counter only after the element's fill returned (a refused value is not counted), and "
     "flow_to_iter -- on whose one-shot iterator the block-wise islice/next consumption rests -- returns its argument unchanged only "
-    "where it has a next method.  "
+    "where it has a next method; both run drivers make their flow an iterator (flow = iter(flow)) before the block loop, because "
+    "piecewise consumption of a re-iterable starts every piece at its beginning.  "
     "Does not decide the equality of concatenated request() results with run (counter arithmetic over histories), nor "
     "wall-clock bounds.")
 RULES = {
@@ -324,6 +325,18 @@ def check_bounded(ctx):
     total = 0
     for qual in ("FillRequest._run_fill_compute", "FillRequest._run_run"):
         fn = ctx.tree.func(ADP, qual)
+        # taking the flow in pieces -- islice(flow, n) again and again, next(flow) -- continues where the last piece ended only on
+        # an iterator; on a list or a range every islice starts from the beginning and the first block is processed for ever
+        fpar = [x for x in A.func_params(fn) if x != "self"][0]
+        first_loop = min([l.lineno for l in A.walk_local(fn) if isinstance(l, (ast.While, ast.For))] or [10 ** 9])
+        conv = [st for st in fn.body if isinstance(st, ast.Assign) and len(st.targets) == 1 and A.src(st.targets[0]) == fpar
+                and isinstance(st.value, ast.Call) and res.call_canon(st.value) in ("builtins.iter", "lena.core.functions.flow_to_iter")
+                and len(st.value.args) == 1 and A.src(st.value.args[0]) == fpar and st.lineno < first_loop]
+        ctx.check("C16-c", len(conv) >= 1, fn, "%s takes its flow in pieces (islice(%s, bufsize) / next(%s) in a loop) without first making it an "
+                  "iterator (`%s = iter(%s)`): run() on a list, a range or any other re-iterable starts every piece at the beginning -- "
+                  "FillRequest(Sum(), reset=True, bufsize=2, buffer_input=True).run([1, 2, 3, 4, 5]) yields 3 for ever instead of 3, 7"
+                  % (qual, fpar, fpar, fpar, fpar), detail="%s: the flow is made an iterator before the block loop" % qual,
+                  construct="piecewise-on-reiterable:%s" % qual.split(".")[-1])
         uses = fa.uses(fn, ["flow"])
         bound_of_alias = {}
         for u in uses:
@@ -864,6 +877,8 @@ VARIANTS = [
     # one fill per value
     M("fc-first-value-dropped", ADPF, "            else:\n                self._el_fill(val)\n                nfills += 1\n\n            for val in slice_:", "            else:\n                nfills += 1\n\n            for val in slice_:", ["C16-d"]),
     M("fc-fill-twice", ADPF, "            for val in slice_:\n                self._el_fill(val)\n                nfills += 1", "            for val in slice_:\n                self._el_fill(val)\n                self._el_fill(val)\n                nfills += 1", ["C16-d"]),
+    M("revert-fix-run-fill-compute-iter", ADPF, "        flow = iter(flow)\n        while True:\n            # A slice is a non-materialized list", "        while True:\n            # A slice is a non-materialized list", ["C16-c"]),
+    M("revert-fix-run-run-iter", ADPF, "        bufsize = self.bufsize\n        # flow is taken slice by slice: that needs an iterator\n        # (slices of a list would always start from its beginning)\n        flow = iter(flow)\n", "        bufsize = self.bufsize\n", ["C16-c"]),
     M("flow-to-iter-keeps-reiterables", "lena/core/functions.py", "    if ((sys.version_info.major == 3 and hasattr(flow, \"__next__\"))\n        or (sys.version_info.major == 2 and hasattr(flow, \"next\"))):\n        return flow\n    else:\n        return iter(flow)",
       "    if isinstance(flow, (list, tuple)):\n        return iter(flow)\n    return flow", ["C16-c"]),
     M("fill-counted-before-accepted", ADPF, "        self._el_fill(value)\n        self._n_count += 1", "        self._n_count += 1\n        self._el_fill(value)", ["C16-d"]),
